@@ -46,7 +46,9 @@ MANIFEST = {
             'expanded set, and following a link must change the set by '
             'exactly that node (collapse also forgets its descendants).  '
             'The codec family round-trips states of every compressed length '
-            '8..300 bytes.',
+            '8..300 bytes.  Shapes of <= 5/6 nodes are also explored with '
+            'the assume_children option (a childless node carries an expand '
+            'link until it has been expanded).',
     'note': 'Trusted: the 40-line set model and the HTML row/link parser in '
             'this driver; zlib/json of the standard library to measure the '
             'compressed length of generated states.',
